@@ -43,7 +43,7 @@ func runMul(s *big.Int, p ref.Pt, z *big.Int, path int, aliased bool, hist int) 
 	raw := lib.Raw(pt)
 	v := pt
 	if !aliased {
-		v = lib.MkPTRep(ref.G().Mul(big.NewInt(11)), big.NewInt(3)) // pre-loaded receiver
+		v = lib.ReceiverWithHistory(int(mc.HS("recv", s.String(), lib.PtHex(p), fmt.Sprint(path)) % lib.NumReceiverHistories)) // a receiver with a past
 	}
 	var ret *Point
 	switch path {
